@@ -131,6 +131,8 @@ func BuildClient(c ClientCfg, dial mail.DialContextFunc, logger mlog.Logger) (*m
 		opts = append(opts, mail.WithSMTPAuthCustom(smtp.PlainAuth("", c.User, c.Pass, c.host(), false)))
 	case "CUSTOM-LOGIN":
 		opts = append(opts, mail.WithSMTPAuthCustom(smtp.LoginAuth(c.User, c.Pass, c.host(), false)))
+	case "CUSTOM-CRAM-MD5":
+		opts = append(opts, mail.WithSMTPAuthCustom(smtp.CRAMMD5Auth(c.User, c.Pass)))
 	case "CUSTOM-STEPLOGIN":
 		opts = append(opts, mail.WithSMTPAuthCustom(&stepLogin{user: c.User, pass: c.Pass}))
 	case "CUSTOM-SCRAM-SHA-1":
